@@ -191,7 +191,11 @@ func (a *AMF) buildDownlinkNASTransport(u *ue, nas []byte, opts uint32) ([]byte,
 			v.AllowedNSSAI = &ngapType.AllowedNSSAI{List: []ngapType.AllowedNSSAIItem{{SNSSAI: ngapSNSSAI(a.sst, a.sd)}}}
 		})
 	}
-	return encodePDU(p)
+	b, err := encodePDU(p)
+	if err != nil {
+		return nil, err
+	}
+	return WithLaterIEs(b, u.ch.LaterIEs, u.idx+1)
 }
 
 // InitialContextSetupRequest in the IE order of TS 38.413 9.2.2.1. The mandatory IEs are
@@ -260,7 +264,11 @@ func (a *AMF) buildInitialContextSetupRequest(u *ue, nas []byte, opts uint32, se
 		})
 	}
 	add(ngapType.ProtocolIEIDNASPDU, ignore, ngapType.InitialContextSetupRequestIEsPresentNASPDU, func(v *V) { v.NASPDU = &ngapType.NASPDU{Value: nas} })
-	return encodePDU(p)
+	b, err := encodePDU(p)
+	if err != nil {
+		return nil, err
+	}
+	return WithLaterIEs(b, u.ch.LaterIEs, u.idx+2)
 }
 
 func ipv4Bits(ip [4]byte) aper.BitString {
@@ -346,7 +354,11 @@ func (a *AMF) buildPDUSessionResourceSetupRequest(u *ue, psi int, nas, transfer 
 	it.PDUSessionResourceSetupRequestTransfer = transfer
 	ie.Value.PDUSessionResourceSetupListSUReq = &ngapType.PDUSessionResourceSetupListSUReq{List: []ngapType.PDUSessionResourceSetupItemSUReq{it}}
 	l.List = append(l.List, ie)
-	return encodePDU(p)
+	b, err := encodePDU(p)
+	if err != nil {
+		return nil, err
+	}
+	return WithLaterIEs(b, u.ch.LaterIEs, u.idx+3)
 }
 
 // PDUSessionResourceReleaseCommand (TS 38.413 9.2.1.5): AMF-UE-NGAP-ID, RAN-UE-NGAP-ID,
@@ -436,4 +448,55 @@ func mobilityRestrictions(plmn [3]byte, n int) *ngapType.MobilityRestrictionList
 		m.ForbiddenAreaInformation = &ngapType.ForbiddenAreaInformation{List: []ngapType.ForbiddenAreaInformationItem{it}}
 	}
 	return m
+}
+
+
+// WithLaterIEs appends n information elements of a later release of TS 38.413 to an encoded message: identifiers this
+// release does not define (and a Release 15 node does not comprehend), criticality "ignore", 0..5 octets of value.
+// New IEs are always added at the END of a message's IE list, so that is where they go. A receiver "shall ignore the
+// content of the not comprehended IEs and continue with the procedure" (TS 38.413 10.3.4.1A). The message is taken
+// apart by hand: triple (3 octets), length determinant of the value, the SEQUENCE preamble octet, the 16-bit count.
+func WithLaterIEs(b []byte, n int, salt int) ([]byte, error) {
+	if n <= 0 {
+		return b, nil
+	}
+	if len(b) < 7 {
+		return nil, fmt.Errorf("message too short to extend")
+	}
+	p := 3
+	var l int
+	switch {
+	case b[p]&0x80 == 0:
+		l, p = int(b[p]), p+1
+	case b[p]&0xc0 == 0x80:
+		l, p = int(b[p]&0x3f)<<8|int(b[p+1]), p+2
+	default:
+		return nil, fmt.Errorf("fragmented message value")
+	}
+	if p+l != len(b) || l < 3 {
+		return nil, fmt.Errorf("length determinant %d does not match the %d octets that follow", l, len(b)-p)
+	}
+	body := append([]byte{}, b[p:]...)
+	cnt := int(body[1])<<8 | int(body[2])
+	for i := 0; i < n; i++ {
+		id := 300 + (salt*7+i*13)%200 // 300..499: not assigned by the release the library implements (ids end at 150)
+		vl := (salt + 3*i) % 6
+		ie := []byte{byte(id >> 8), byte(id), 0x40, byte(vl)}
+		for k := 0; k < vl; k++ {
+			ie = append(ie, byte(0xa0+salt+k+i))
+		}
+		body = append(body, ie...)
+		cnt++
+	}
+	body[1], body[2] = byte(cnt>>8), byte(cnt)
+	out := append([]byte{}, b[:3]...)
+	switch {
+	case len(body) < 128:
+		out = append(out, byte(len(body)))
+	case len(body) < 16384:
+		out = append(out, 0x80|byte(len(body)>>8), byte(len(body)))
+	default:
+		return nil, fmt.Errorf("message too long to extend")
+	}
+	return append(out, body...), nil
 }
